@@ -137,3 +137,34 @@ func VerifC20(kind string, op string) {
 	vfy.Assert(bytes.Equal(shared, in), "the shared input is unchanged")
 	vfy.Cover("write set checked")
 }
+
+// VerifC20Box: the same check for one box of every registered type with a fully symbolic payload:
+// decode, Info and encode of a box must not store into the shared input or into package-level
+// state (lookup tables, registries), whatever the payload.
+func VerifC20Box(boxType string, n int) {
+	in := verifBoxBytes(boxType, n, false)
+	vfy.InputLen(len(in))
+	shared := append([]byte{}, in...)
+	vfy.SharedInput(shared)
+	if vfy.Symbolic() {
+		// the operation is sequential deterministic code: with an empty write set on everything
+		// another goroutine can reach, its result cannot depend on what the other goroutine does
+		_ = c20Op("box", shared, nil)
+		vfy.Cover("write set checked")
+		return
+	}
+	alone := c20Op("box", append([]byte{}, in...), nil)
+	var wg sync.WaitGroup
+	res := make([][]byte, 2)
+	for g := 0; g < 2; g++ {
+		wg.Add(1)
+		go func(g int) {
+			defer wg.Done()
+			res[g] = c20Op("box", shared, nil)
+		}(g)
+	}
+	wg.Wait()
+	vfy.Assert(bytes.Equal(res[0], alone) && bytes.Equal(res[1], alone), "each goroutine gets the result of a run alone")
+	vfy.Assert(bytes.Equal(shared, in), "the shared input is unchanged")
+	vfy.Cover("write set checked")
+}
